@@ -371,9 +371,14 @@ func (o *oidcHandler) retrieveTokens(ctx context.Context, log telemetry.Logger, 
 	}
 
 	// Knock 5 seconds off the expiry time to take into account the time it may
-	// have taken to retrieve the token.
-	expiresIn := time.Duration(bodyTokens.ExpiresIn)*time.Second - 5
-	accessTokenExpiration := o.clock.Now().Add(expiresIn)
+	// have taken to retrieve the token. If the provider did not say when the
+	// access token expires, leave the expiration unset (unknown) instead of
+	// recording a token that is already expired.
+	var accessTokenExpiration time.Time
+	if bodyTokens.ExpiresIn > 0 {
+		expiresIn := time.Duration(bodyTokens.ExpiresIn)*time.Second - 5
+		accessTokenExpiration = o.clock.Now().Add(expiresIn)
+	}
 
 	log.Debug("saving tokens to session store")
 	if err := store.SetTokenResponse(ctx, sessionID, &oidc.TokenResponse{
